@@ -196,7 +196,9 @@ def judgeStream (st : St) (obs : List String) : Verdict := Id.run do
   if recorded.any (fun p => (lineOf F mult p).length ≥ maxTok) then brs := addBr brs "line-too-long"
   if recorded.any (·.hashName) then brs := addBr brs "comment-line"
   match known with
-  | some key => return .known key s!"first affected point {(dev.map (·.1)).getD 0}; status={statusStr status} delivered={items.length}/{recorded.length}"
+  | some key =>
+    let tie := if brs.contains "dev-exact" then "model=observed" else "model=observed-on-the-prefix-only"
+    return .known key s!"first affected point {(dev.map (·.1)).getD 0}; status={statusStr status} delivered={items.length}/{recorded.length}; {tie}; frames={fs.length}"
   | none =>
     let nt := recorded.length ≥ 2 && (brs.contains "key-escapes" || brs.contains "string-escapes" || brs.contains "int-beyond-2^53")
     return .ok nt brs
